@@ -22,6 +22,7 @@ from ural.utils import (
     urlunsplit,
     safe_urlsplit,
     SplitResult,
+    SLASH_SQUEEZE_RE,
 )
 
 NUMERIC_ID_RE = re.compile(r"[0-9]{8,}")
@@ -319,6 +320,10 @@ def parse_facebook_url(url, allow_relative_urls=False):
             return None
 
     splitted = safe_urlsplit(url)
+
+    # NOTE: consecutive slashes are one slash, an empty path segment is never
+    # an id nor a handle ("fb.me//", "/groups//posts/1")
+    splitted = splitted._replace(path=SLASH_SQUEEZE_RE.sub("/", splitted.path))
 
     if not splitted.path or splitted.path == "/":
         return None
